@@ -32,13 +32,13 @@ FUNCTIONS = ['Repetition9Code / Repetition9Round6Code / Repetition5Round4Code ta
 BOUNDS = {'quick': "all layers of the three shipped layouts and the Surface-17 tables (solver witness queries, exhaustive over the tables); derived: every "
                    "contiguous sub-chain of each layout's chain (>= 2 data qubits), every subset of <= 2 qubits, the full set, forward and reversed; "
                    "composite descriptions with each single edge / qubit exclusion on the full chain, with and without only-required parking",
-          'thorough': "as quick plus every subset of <= 3 qubits and 600 seeded random subsets of any size per layout, composite exclusions on every contiguous sub-chain"}
+          'thorough': "as quick plus every subset of <= 3 qubits and 4000 seeded random subsets of any size per layout, composite exclusions on every contiguous sub-chain"}
 OUTSIDE = ["layouts the user writes", "subsets outside the enumerated families (class B: bounded exhaustive)"]
 ASSUMPTIONS = ["parking requirement is the library's own get_requires_parking (its meaning is C16's subject)",
                "class B (finite): the solver decides each clause over the whole extracted table at once; derived descriptions are executed concretely"]
 REQUIRED_REACH = ['C17.smt.device_edge', 'C17.smt.distinct', 'C17.smt.park_vs_gate', 'C17.smt.required_parked', 'C17.smt.parity_once', 'C17.smt.surface17',
                   'C17.derived.kept', 'C17.derived.bijective', 'C17.derived.indices', 'C17.derived.parking', 'C17.composite.filter']
-EXHAUSTIVE = {'quick': True, 'thorough': True}
+EXHAUSTIVE = {'quick': True, 'thorough': False}   # thorough adds seeded samples beyond the exhaustive part
 JOB_OPTS = {'quick': dict(max_paths=10, max_seconds=900, twin=False), 'thorough': dict(max_paths=10, max_seconds=3000, twin=False)}
 RULE = ("one evaluation = one derived description executed on the real code or one solver witness query over an extracted table; "
         "non-trivial = derived description that keeps at least one gate and drops at least one")
@@ -83,7 +83,7 @@ def subsets_for(name, tier, seed):
     out.append(list(allq))
     if tier != 'quick':
         rng = random.Random(seed + 17)
-        for _ in range(600):
+        for _ in range(4000):
             k = rng.randint(2, len(allq))
             out.append(rng.sample(allq, k))
     return out
